@@ -59,6 +59,7 @@ var trList = []trFunc{
 	{"CodeKeepSafe", "destination", "keepSafe.Add", "keepSafe.Add", true, false, []string{"recv"}, nil, ""},
 	{"CodeKeepSafe", "destination", "keepSafe.GetAll", "keepSafe.GetAll", true, false, []string{"recv"}, nil, ""},
 	{"CodeRewriter", "rewriter", "RW.Do", "RW.Do", true, false, nil, nil, ""},
+	{"CodeRewriter", "rewriter", "New", "rewriter_New", true, true, nil, nil, ""},
 	{"CodeTableOps", "table", "Table.AddRoute", "Table.AddRoute", true, false, []string{"recv"}, nil, ""},
 	{"CodeTableOps", "table", "Table.AddBlacklist", "Table.AddBlacklist", true, false, []string{"recv"}, nil, ""},
 	{"CodeTableOps", "table", "Table.AddAggregator", "Table.AddAggregator", true, false, []string{"recv"}, nil, ""},
@@ -81,6 +82,7 @@ var leanTypes = map[string]string{
 	"*Matcher": "Matcher", "Matcher": "Matcher", "*Table": "Table", "*SendAllMatch": "SendAllMatch", "*SendFirstMatch": "SendFirstMatch",
 	"*Destination": "Destination", "*baseRoute": "baseRoute", "*ConsistentHasher": "ConsistentHasher", "*ConsistentHashing": "ConsistentHashing", "*Aggregator": "Aggregator", "*keepSafe": "keepSafe", "RW": "RW",
 	"time.Duration": "Int", "matcher.Matcher": "MatcherArgs", "GrafanaNetConfig": "GrafanaNetConfig",
+	"*regexp.Regexp": "Option RegexpI",
 	"*toki.Scanner": "Scanner", "table.Interface": "TableI", "*destination.Destination": "DestP",
 	"route.Route": "RouteI", "*matcher.Matcher": "MatcherI", "*aggregator.Aggregator": "AggregatorI", "rewriter.RW": "RewriterI",
 }
@@ -345,6 +347,29 @@ func (c *trCtx) expr(e ast.Expr) string {
 	case *ast.CallExpr:
 		return c.call(x)
 	case *ast.CompositeLit:
+		if len(x.Elts) == 0 {
+			t, ok := leanTypes[src(x.Type)]
+			if !ok {
+				fail("empty composite literal of type %s", src(x.Type))
+			}
+			return "(default : " + t + ")"
+		}
+		if _, ok := x.Elts[0].(*ast.KeyValueExpr); ok {
+			// a keyed struct literal is a structure instance of the mapped type
+			t, ok := leanTypes[src(x.Type)]
+			if !ok {
+				fail("composite literal of type %s", src(x.Type))
+			}
+			var fs []string
+			for _, el := range x.Elts {
+				kv, ok := el.(*ast.KeyValueExpr)
+				if !ok {
+					fail("mixed composite literal %s", src(x))
+				}
+				fs = append(fs, lid(src(kv.Key))+" := "+c.expr(kv.Value))
+			}
+			return "({ " + strings.Join(fs, ", ") + " } : " + t + ")"
+		}
 		// an unkeyed struct literal is the tuple of its fields
 		var es []string
 		for _, el := range x.Elts {
